@@ -107,6 +107,49 @@ Fixpoint m_all_false (srv : mserver) (limit : Z) (n : nat) (s : mstate) : bool :
   | S k => let '(b, s', _) := m_next srv limit s in negb b && m_all_false srv limit k s'
   end.
 
+(* Iterator.FetchTotal: a probe query (offset 0, limit 1) whose answer only updates count/totalGot.
+   Iterator.Total: the cached count once some answer was seen, else FetchTotal.
+   Result: the count returned, the new state, the probe query (offset) if one was sent. *)
+Definition m_fetch_total (srv : mserver) (s : mstate) : Z * mstate * option Z :=
+  let r := srv 0 1 in
+  let cnt := match mr_kind r with KMessages => zlen (mr_msgs r) | _ => mr_count r end in
+  (cnt, {| m_buf := m_buf s; m_cur := m_cur s; m_last := m_last s; m_off := m_off s; m_count := cnt; m_got := true |}, Some 0).
+Definition m_total (srv : mserver) (s : mstate) : Z * mstate * option Z :=
+  if m_got s then (m_count s, s, None) else m_fetch_total srv s.
+
+(* a loop "for it.Next()" in which Total (kind 0) / FetchTotal (kind 1) is called before the Next call
+   number [pos] for every (pos, kind) of [calls] (and after the loop for pos = fuel of the last call).
+   Result as m_iterate, plus the counts returned. *)
+Definition m_do_calls (srv : mserver) (calls : list (nat * Z)) (n : nat) (s : mstate) : list Z * list Z * mstate :=
+  fold_left (fun acc c =>
+               let '(cs, qs, st) := acc in
+               if Nat.eqb (fst c) n then
+                 let '(cnt, st', q) := if snd c =? 0 then m_total srv st else m_fetch_total srv st in
+                 (cs ++ [cnt], qs ++ match q with Some o => [o] | None => [] end, st')
+               else acc) calls ([], [], s).
+
+Fixpoint m_iterate_t (srv : mserver) (limit : Z) (calls : list (nat * Z)) (fuel : nat) (n : nat) (s : mstate)
+  : list Z * list Z * list Z * mstate * bool :=   (* yielded, queries, counts, final state, finished *)
+  let '(cs0, q0, s0) := m_do_calls srv calls n s in
+  match fuel with
+  | O => ([], q0, cs0, s0, false)
+  | S f =>
+      let '(b, s', q) := m_next srv limit s0 in
+      let qs := q0 ++ match q with Some o => [o] | None => [] end in
+      if b then
+        let '(ys, os, cs, sf, fin) := m_iterate_t srv limit calls f (S n) s' in
+        (m_value s' :: ys, qs ++ os, cs0 ++ cs, sf, fin)
+      else
+        (* calls scheduled "after the end" (position > number of Next calls made) happen now *)
+        let '(cs1, q1, s1) := fold_left (fun acc c =>
+               let '(cs, qs', st) := acc in
+               if Nat.ltb n (fst c) then
+                 let '(cnt, st', q') := if snd c =? 0 then m_total srv st else m_fetch_total srv st in
+                 (cs ++ [cnt], qs' ++ match q' with Some o => [o] | None => [] end, st')
+               else acc) calls ([], [], s') in
+        ([], qs ++ q1, cs0 ++ cs1, s1, true)
+  end.
+
 (* The server of the property: history [h] (strictly descending positive ids); offset 0 =
    from the top, otherwise ids below the offset; at most [limit] items. *)
 Definition m_below (off : Z) (h : list Z) : list Z :=
